@@ -68,6 +68,27 @@ checks = [
  ("C17", "exhaustive enumeration of block calls against a reference parameter-resolution model",
   "Receivers {Array<Integer>, Array<Integer String>, two Hashes, Range, String, Integer} x every configured block method visible on them x 0..declared+1 block variables x do/end and braces x shadowing of an outer variable x a nested inner block (reading / shadowing the outer parameter) with a block-local assignment; probes on every parameter inside, and on the outer variable and the block-local after the block.",
   TRUST + " Declared block parameter kinds outside {Int,String,Symbol,NilClass,Float,Untyped,Unify,Flatten,Item} are not probed."),
+ ("C15", "exhaustive enumeration of (parameter list x body x call-site argument-type tuple x arrangement) programs against a reference union/return-type model",
+  "One user method with 5 parameter-list shapes and 5 body kinds, 1-3 (thorough 4) call sites over {Integer,String,NilClass,Float}, definition before/after the calls, calls inside another method or through a second method: the parameter's type in the body and in the -i signature must be the union of the call-site argument types (plus defaults), the call's type the body's result incl. explicit return, and a body operation failing for every / defined for every argument class must (not) be reported.",
+  TRUST),
+ ("C16", "exhaustive enumeration of generated hierarchies x call forms against a Ruby method-resolution/visibility reference",
+  "Superclass chains of depth 1-3 (thorough 4), a method at each level under each visibility, include/extend (and both) of a module at each level, class methods via def self./class << self, initialize arities 0-2 x 0-3 arguments, 14 call forms, class names plain and colliding with configured short names; one call per program; undefined/invisible must be reported on the call row, defined and visible must not and must have the body's type.",
+  TRUST),
+ ("C22", "exhaustive enumeration of class bodies (sequences of definition kinds) x editor queries against generator-known def rows",
+  "Every sequence of <=3 (thorough 4) items from 8 definition kinds (plain, after private/protected/public, def self., class << self, endless, multi-line signature), optionally nested in a module, plus a top-level method: -i must give exactly one hint per method at its def row with the right c/ or i/ tag and visibility; --define --row=<call row> must contain the method's def row; --hover --row=<call row> must name the method.",
+  TRUST + " Visibility tags of class methods are not checked."),
+ ("C23", "exhaustive enumeration of receivers x cursor forms against a reference suggestion set computed from the configuration JSON",
+  "An instance of every literal class, every configured class with class methods, and a user hierarchy (instance and class receivers), each as `recv.` mid-file, as last line and inside a method body: every method of the class and its ancestors incl. Object/Kernel must be suggested, nothing outside that set, and no private/unrelated/wrong-kind method of the user classes.",
+  TRUST + " The many deviations of the unchanged tree are pinned one by one (receiver, form, missing count) in known_findings.json."),
+ ("C24", "exhaustive enumeration of call-site multisets against generator-known call graphs",
+  "A target method with every multiset of 1-2 (thorough 3) call sites from 9 contexts (statement, assignment, if/elsif/unless/while condition, argument, block, loop body) x 4 enclosings (top level, top-level method, instance method, class method): --llm-nav --target must list one caller per site with row and enclosing method/class and the right total; each caller's callee list may only contain written calls, once per written call.",
+  TRUST),
+ ("C25", "exhaustive enumeration of RBS signature shapes through the real converter under owned map order, then through ti",
+  "AST documents for every shape {0-2 required, 0-2 optional, rest?, 0-1 trailing, 0-2 (thorough 3) required and optional keywords} (+ overload, alias, attribute) go through rbs2json with a stand-in ruby: byte-identical JSON under SORTED/REVERSED/ROT map orders and repeated unmodified runs; prescribed argument order/flags/type mapping; ti with the emitted file reports a call with k=0..6 positionals exactly outside the RBS arity.",
+  "rbs2json and c2json are built from /repo with the same map-order overlay (order policy from $VERIF_ORDER) and also unmodified. The Ruby RBS parser is absent: generation starts at the AST JSON the embedded script would print."),
+ ("C26", "exhaustive enumeration of C binding definitions through the real converter, then through ti",
+  "Every MRB_ARGS combination (REQ 0-2, OPT 0-2, REST, POST 0-1, BLOCK, NONE, ANY) via both definers, every well-formed mrb_get_args format over {i,S,o,!,|,*,&} with <=1 (thorough 2) required and optional types, and GET_*_ARG/argc patterns: converter output byte-identical under map orders and repeated runs; ti with the emitted file reports a call with k=0..6 positionals exactly outside the C definition's arity.",
+  "No C compiler involved: the reference arity is the generator's reading of the spec/format/argc pattern."),
 ]
 m = {
  "version": 1,
